@@ -62,8 +62,14 @@ def run_codec_property(v, prop, ops, oracle, rule_extra="", known=None):
     distinct = set()
     for x in c.cases:
         r = oracle(c, x)
+        if (x.cid, "crash") in c.iobs and not r:
+            r = "the process aborted while handling bytes produced by serialization: %s" % c.iobs[(x.cid, "crash")]
         if isinstance(r, tuple) and r[0] == "known":
-            known_hit.setdefault(r[1], []).append(x.cid)
+            # r = ('known', finding id, what failed): suppressed only when the finding is listed
+            if known_listed(prop, r[1]):
+                known_hit.setdefault(r[1], []).append(x.cid)
+            else:
+                failing.append((x, r[2]))
         elif r:
             failing.append((x, r))
         for op in ops:
@@ -89,8 +95,10 @@ def run_codec_property(v, prop, ops, oracle, rule_extra="", known=None):
         "campaign_wall_s": round(c.wall, 1),
         "samples": [describe(c, x) for x in c.cases[5:6] + c.cases[-1:]],
     })
-    for what, cids in known_hit.items():
-        v.known("%s (%d generated cases in the class, e.g. %s)" % (what, len(cids), cids[0]))
+    for fid, cids in known_hit.items():
+        f = known_listed(prop, fid)
+        v.known("%s: %s [%d generated cases in the class, e.g. %s: %s]" % (
+            fid, f["identified_by"], len(cids), cids[0], rust_ty(c.U, [x for x in c.cases if x.cid == cids[0]][0].t, "'_")))
     if failing:
         failing.sort(key=lambda p: case_weight(p[0]))
         x, why = failing[0]
@@ -201,7 +209,7 @@ def oracle_c07(c, x):
         off, size, align = int(off, 16), int(size, 16), int(align, 16)
         if field.endswith("zero") or field == "zero":
             if align & (align - 1) or align == 0:
-                known = ("known", "D10: alignment unit %d is not a power of two (RangeTo/RangeToInclusive over an index type whose size is not a power of two)" % align)
+                known = ("known", "D10", "alignment unit %d of a zero-copy block is not a power of two" % align)
                 continue
             if off % align:
                 # items of a SerIter are consecutive writes of one block: only the first is aligned
